@@ -92,6 +92,11 @@ def make_probe(desc, k):
             stmts = [A.FuncStmt(f, [V("p")], False, [A.OpAssign("+", V("p"), A.lst(I(9))), A.Return(V("p"))]),
                      A.Declare(V(l), A.lst(I(1))), P(A.call(f, V(l))), P(V(l)), P(A.call(f, V(l))), P(V(l))]
             lines = render([1, 9]) + render([1]) + render([1, 9]) + render([1])
+        elif name == "lone_rest_spread_is_fresh":
+            stmts = [A.FuncStmt(f, [V("r")], True, [A.Assign(A.Index(V("r"), I(0)), I(99)), A.Return(V("r"))]),
+                     A.Declare(V(l), A.lst(I(1), I(2))), A.Declare(V(x), A.Call(V(f), [(V(l), True)])),
+                     P(V(l)), P(V(x)), P(A.Bin("===", V(x), V(l)))]
+            lines = render([1, 2]) + render([99, 2]) + ["false"]
         elif name == "rest_fresh_per_call":
             stmts = [A.FuncStmt(f, [V("r")], True, [A.Return(V("r"))]),
                      P(A.Bin("===", A.call(f), A.call(f))), P(A.Bin("==", A.call(f), A.lst()))]
@@ -219,7 +224,7 @@ def make_probe(desc, k):
     raise ValueError(desc)
 
 
-FRESH = ["param_opassign_list", "rest_wraps_single_list", "assign_param", "destructure_assign_param", "mutate_list", "mutate_object", "same_arg_twice", "rest_is_fresh",
+FRESH = ["lone_rest_spread_is_fresh", "param_opassign_list", "rest_wraps_single_list", "assign_param", "destructure_assign_param", "mutate_list", "mutate_object", "same_arg_twice", "rest_is_fresh",
          "rest_fresh_per_call", "params_fresh_per_call", "arg_expr_once"]
 SPECIAL = ["nested_fn_sees_enclosing_this", "this_is_the_object_itself", "method_mutates_this", "same_fn_two_objects",
            "this_outside_any_function", "callee_not_function", "recursion_keeps_this"]
